@@ -1,7 +1,11 @@
+mod c12;
 mod c13;
+mod c20;
 mod coqfmt;
+mod methods;
 mod reflect;
 mod rng;
+mod rpcx;
 
 use std::path::PathBuf;
 
@@ -18,7 +22,9 @@ fn main() {
     std::fs::create_dir_all(&out).expect("create out dir");
     let r = match cmd.as_str() {
         "reflect" => reflect::run(&out),
+        "c12" => c12::run(&out, seed, thorough),
         "c13" => c13::run(&out, seed, thorough),
+        "c20" => c20::run(&out, seed, thorough),
         _ => { eprintln!("usage: hx <reflect|c13|...> --out DIR [--seed N] [--tier quick|thorough]"); std::process::exit(2); }
     };
     if let Err(e) = r { eprintln!("hx {}: error: {}", cmd, e); std::process::exit(3); }
